@@ -9,6 +9,7 @@ The rewrite system and the corpus are in mc/gen/layout.py and share no code with
 import copy
 import hashlib
 import itertools
+import multiprocessing
 import os
 
 from ..common import HarnessError, load_impl, show
@@ -20,17 +21,23 @@ RULE = ('state = one distinct source text (str, or tuple of chunk strings passed
         'applied at one position (LF<->CRLF for the whole text or one line end; chunk cut at a line boundary keeping or dropping '
         'the line end; one-element list; blank / "# comment" / indented comment / comment ending in a backslash inserted at any '
         'line gap, also between the parts of a continued line; one line re-indented to none / 2 spaces / tab; trailing spaces or '
-        'tab on one line; one line broken with a trailing backslash, optionally followed by spaces, at one whitespace run between '
-        'two tokens); trace = one parse compared by deep equality with the model of the plain logical-line text of the root (comment and blank lines dropped, continued parts joined by one space, no indentation). Breadth-first with '
+        'tab on one line; one line broken with a trailing backslash at one whitespace run between two tokens in five styles: '
+        'whitespace kept before the backslash and the rest indented, the same with blanks after the backslash, tight (tok\\ / tok: '
+        'the break consumes the whitespace), blank only before, blank only after); trace = one parse compared by deep equality with the model of the plain logical-line text of the root (comment and blank lines dropped, continued parts joined by one space, no indentation). Breadth-first with '
         'de-duplication on the text to the depth bound from every corpus program; depth 1 (thorough: 2 for the short files) from '
         'every shipped .bare file; all 3^(n-1) chunkings of programs of <= 8 lines; all subsets of the gaps of every line; '
-        'parse(A) parse(B) parse(A) for every ordered pair of a corpus of valid and invalid texts / expressions. '
+        'parse(A) parse(B) parse(A) for every ordered pair of a corpus of valid, invalid and near-duplicate texts / expressions '
+        '(differing only inside a literal, name, include target or comment by whitespace, letter case or quote style): A twice the same, '
+        'A and B each equal to their result in a fresh process. Corpus lines also use form feed / vertical tab between tokens and '
+        'literals containing the characters str.splitlines() would split at (CR, VT, FF, FS, GS, RS, NEL, LS, PS). '
         'A state is non-trivial when its number of physical lines differs from the root text (continuation breaks, inserted lines).')
 ASSUMPTIONS = [
     'trusted: the token-gap notation of the corpus (cross-checked against the quote scanner on every run) and the quote scanner for shipped files',
     'a line is only broken where whitespace already exists between two tokens (never inside literals, [names], <system include> targets, operators)',
     'a trailing backslash at the very end of the input is never generated (parser error since the F11 fix)',
     'statelessness also requires that mutating a returned model does not change later results',
+    'all reference results are parsed in freshly forked children of a process that never called the parser',
+    'form feed and vertical tab are inter-token whitespace (they are for the \\s of the statement regexes); checked: the plain text of such a program must parse',
 ]
 
 _CACHE = {}
@@ -77,6 +84,7 @@ def parse_obs(inp, kind=None):
     """Parse a rendered state with the real parser. A tuple of chunks is passed as a list (kind None/'list'), as a tuple or as
     a one-shot iterator. Returns ('ok', model) or ('raise', class, error, line number, column, line)."""
     bs = load_impl()
+    _CACHE['parsed_here'] = True
     if isinstance(inp, tuple):
         arg = inp if kind == 'tuple' else iter(list(inp)) if kind == 'iter' else list(inp)
     else:
@@ -88,14 +96,49 @@ def parse_obs(inp, kind=None):
                 getattr(exc, 'column_number', None), getattr(exc, 'line', None))
 
 
+def _pristine_child(job):
+    kind, text = job
+    return _parse_any(kind, text)
+
+
+def pristine(kind, texts):
+    """Parse every text in its own freshly forked child of this process. Used for all reference results, from a process that
+    has itself never called the parser (the runner's parent process, or a replay process before it runs the case): a
+    reference result therefore cannot depend on any earlier parser call."""
+    if _CACHE.get('parsed_here'):
+        raise HarnessError('reference parse requested from a process that has already used the parser')
+    if not texts:
+        return []
+    ctx = multiprocessing.get_context('fork')
+    with ctx.Pool(min(8, len(texts)), maxtasksperchild=1) as pool:
+        return pool.map(_pristine_child, [(kind, t) for t in texts], chunksize=1)
+
+
+def load_references():
+    """Reference models of all roots (plain logical-line texts) and reference results of the statelessness texts."""
+    if 'refs' in _CACHE:
+        return
+    roots = [{'prog': i, 'name': name} for i, (name, _) in enumerate(the_corpus())] + [{'file': n} for n in shipped_names()]
+    plain = [L.canonical_text(root_state(c)) for c in roots]
+    res = pristine('script', plain)
+    res_lines = pristine('script', [t.split('\n') for t in plain])
+    for case, obs, obs_lines in zip(roots, res, res_lines):
+        # the plain text is parsed twice, as one string and as the list of its logical lines; the reference model is the
+        # string result (the list result if the string is rejected); a disagreement between the two is reported by the
+        # root's search as a violation of its own (one string versus chunks is part of the property)
+        good = obs if obs[0] == 'ok' else obs_lines
+        if good[0] != 'ok':
+            raise HarnessError(f'the plain logical-line text of a root does not parse: {case} {obs[:4]}')
+        _CACHE[('model', case.get('prog'), case.get('file'))] = good[1]
+        _CACHE[('plainpair', case.get('prog'), case.get('file'))] = (obs, obs_lines)
+    _CACHE[('baseline', 'script')] = pristine('script', script_texts())
+    _CACHE[('baseline', 'expression')] = pristine('expression', expr_texts())
+    _CACHE['refs'] = True
+
+
 def original_model(case):
-    key = ('model', case.get('prog'), case.get('file'))
-    if key not in _CACHE:
-        obs = parse_obs(L.canonical_text(root_state(case)))
-        if obs[0] != 'ok':
-            raise HarnessError(f'the plain logical-line text of the corpus program does not parse: {case} {obs}')
-        _CACHE[key] = obs[1]
-    return _CACHE[key]
+    load_references()
+    return _CACHE[('model', case.get('prog'), case.get('file'))]
 
 
 def first_difference(a, b, path='model'):
@@ -142,14 +185,35 @@ def _with_text(case, inp):
     return case
 
 
+def check_plain(case, acc):
+    """The plain logical-line text of a root, parsed in fresh processes as one string and as the list of its lines, must
+    give the same model."""
+    load_references()
+    obs, obs_lines = _CACHE[('plainpair', case.get('prog'), case.get('file'))]
+    acc.evals += 2
+    acc.traces += 1
+    if obs != obs_lines:
+        text = L.canonical_text(root_state(case))
+        acc.violation(dict(case, plain=True, text=text if len(text) <= 1500 else '(long)'),
+                      {'as_list_of_lines': show(obs_lines[:4] if obs_lines[0] != 'ok' else 'accepted')},
+                      {'as_one_string': show(obs[:4] if obs[0] != 'ok' else 'accepted')},
+                      'the plain text parses differently as one string and as the list of its lines')
+        return False
+    return True
+
+
 def check_path(case, acc):
     """Replayable unit: root text + a path of rewrites (+ optional chunking / gap subset) -> compare."""
+    if case.get('plain'):
+        return check_plain(case, acc), None
     st = root_state(case)
     st = L.apply_path(st, case.get('path', []))
     if st is None:
         raise HarnessError(f'rewrite path does not apply: {case}')
     if 'gaps' in case:
-        st = L.break_gaps(st, case['line'], case['gaps'], lambda k: (k + case.get('v', 0)) % 2)
+        mode = case.get('mode', 0)
+        nv = len(L.BREAKS)
+        st = L.break_gaps(st, case['line'], case['gaps'], (lambda k: mode) if mode < nv else (lambda k: k % nv))
     if 'chunks' in case:
         st = L.chunking(st, case['chunks'])
     return compare_text(case, L.render(st), acc, case.get('as')), st
@@ -181,6 +245,8 @@ def bfs(base, depth, acc, part=(0, 1)):
         acc.cases += 1
         ok = compare_text(dict(base, path=[]), L.render(root), acc)
         acc.outcome((base.get('prog', base.get('file')), orig_lines, False, ok))
+        acc.cases += 1
+        check_plain(base, acc)
     frontier = [(root, [])]
     disc = 0
     for level in range(1, depth + 1):
@@ -292,6 +358,9 @@ def gap_lines():
     return out
 
 
+GAP_MODES = len(L.BREAKS) + 1    # every break of the subset in the same style (5 styles), or the styles in rotation
+
+
 def fam_gapsets(arg):
     acc = Acc('gap_subsets')
     corpus = the_corpus()
@@ -299,17 +368,21 @@ def fam_gapsets(arg):
         name = corpus[i][0]
         for mask in range(1 << g):
             subset = [b for b in range(g) if mask >> b & 1]
-            v = mask % 2
-            case = {'prog': i, 'name': name, 'line': li, 'gaps': subset, 'v': v}
-            acc.cases += 1
-            acc.states += 1
-            acc.transitions += len(subset)
-            ok, st = check_path(case, acc)
-            if subset:
-                acc.nontrivial += 1
-            acc.outcome((i, li, len(subset), ok))
-            if mask == (1 << g) - 1 and (i + li) % 11 == 0:
-                acc.sample({'root': name, 'line': li, 'all_gaps_broken': L.render(st)})
+            seen = set()
+            for mode in range(GAP_MODES):
+                case = {'prog': i, 'name': name, 'line': li, 'gaps': subset, 'mode': mode}
+                acc.cases += 1
+                acc.transitions += len(subset)
+                ok, st = check_path(case, acc)
+                text = L.render(st)
+                if text not in seen:
+                    seen.add(text)
+                    acc.states += 1
+                    if subset:
+                        acc.nontrivial += 1
+                acc.outcome((i, li, len(subset), ok))
+                if mask == (1 << g) - 1 and mode == 2 and (i + li) % 11 == 0:
+                    acc.sample({'root': name, 'line': li, 'all_gaps_broken_tight': text})
     return acc.result()
 
 
@@ -319,15 +392,17 @@ def script_texts():
     corpus = the_corpus()
     valid = [L.render(st) for _, st in corpus[:16]]
     chunked = [list(L.render(L.chunking(st, [1] * (L.physical_lines(st) - 1)))) for _, st in corpus[16:20]]
-    return valid + chunked + list(L.INVALID_SCRIPTS) + [list(c) for c in L.INVALID_CHUNKED]
+    return (valid + chunked + list(L.INVALID_SCRIPTS) + [list(c) for c in L.INVALID_CHUNKED]
+            + list(L.NEAR_SCRIPTS) + [list(c) for c in L.NEAR_CHUNKED])
 
 
 def expr_texts():
-    return list(L.VALID_EXPRS) + list(L.INVALID_EXPRS)
+    return list(L.VALID_EXPRS) + list(L.INVALID_EXPRS) + list(L.NEAR_EXPRS)
 
 
 def _parse_any(kind, text):
     bs = load_impl()
+    _CACHE['parsed_here'] = True
     fn = bs.parse_script if kind == 'script' else bs.parse_expression
     arg = list(text) if isinstance(text, list) else text
     try:
@@ -351,11 +426,8 @@ def _scribble(model):
 
 
 def baseline(kind):
-    key = ('baseline', kind)
-    if key not in _CACHE:
-        texts = script_texts() if kind == 'script' else expr_texts()
-        _CACHE[key] = [copy.deepcopy(_parse_any(kind, t)) for t in texts]
-    return _CACHE[key]
+    load_references()
+    return _CACHE[('baseline', kind)]
 
 
 def check_pairstate(case, acc):
@@ -369,6 +441,7 @@ def check_pairstate(case, acc):
     if first[0] == 'ok':
         _scribble(first[1])
     mid = _parse_any(kind, b)
+    mid_snap = copy.deepcopy(mid)
     if mid[0] == 'ok':
         _scribble(mid[1])
     again = _parse_any(kind, a)
@@ -378,7 +451,9 @@ def check_pairstate(case, acc):
     if again != snap:
         acc.violation(case, show(snap), show(again), 'parse(A) after parse(B) differs from the first parse(A)')
     elif snap != base[i]:
-        acc.violation(case, show(base[i]), show(snap), 'parse(A) differs from the parse of A at the start of the run')
+        acc.violation(case, show(base[i]), show(snap), 'parse(A) differs from the parse of A made in a fresh process')
+    if mid_snap != base[j]:
+        acc.violation(case, show(base[j]), show(mid_snap), 'parse(B) right after parse(A) is not the result B has in a fresh process')
     return (snap[0], mid[0])
 
 
@@ -392,8 +467,9 @@ def fam_state(arg):
             acc.states += 1
             obs = check_pairstate({'kind': kind, 'i': i, 'j': j}, acc)
             acc.outcome(obs)
-            if obs[0] != obs[1]:
-                acc.nontrivial += 1     # one of the two texts is valid, the other rejected
+            texts = script_texts() if kind == 'script' else expr_texts()
+            if obs[0] != obs[1] or (texts[i] != texts[j] and L.normalised(texts[i]) == L.normalised(texts[j])):
+                acc.nontrivial += 1     # one text valid and the other rejected, or near-duplicates (equal up to case/whitespace/quotes/comments)
             if j == (i * 3 + 1) % n and i % 7 == 0:
                 texts = script_texts() if kind == 'script' else expr_texts()
                 acc.sample({'A': texts[i], 'B': texts[j], 'results': list(obs)})
@@ -416,14 +492,9 @@ def self_check():
 def families(tier):
     self_check()
     corpus = the_corpus()
-    # Reference models are computed here, in the parent process before anything else is parsed; the forked workers inherit
-    # them. A worker whose parser has been disturbed by earlier calls therefore shows up as a violation, not as a harness error.
-    for i, (name, _) in enumerate(corpus):
-        original_model({'prog': i, 'name': name})
-    for name in shipped_names():
-        original_model({'file': name})
-    baseline('script')
-    baseline('expression')
+    # All reference results are computed here, each in its own forked child of the parent, which itself never calls the
+    # parser; the shard processes inherit them. A reference can therefore not be disturbed by state the parser keeps.
+    load_references()
     depth = 2 if tier == 'quick' else 3
     names = shipped_names()
     if not names:
@@ -440,12 +511,12 @@ def families(tier):
     # statelessness first: its witnesses replay in a fresh process, which the runner's confirmation step needs
     return [
         Family('stateless_script', fam_state, [('script', r) for r in split(list(range(ns)), 16)],
-               f'every ordered pair (A, B) of {ns} valid and invalid script texts: parse A, parse B, parse A', expected=ns * ns),
+               f'every ordered pair (A, B) of {ns} valid, invalid and near-duplicate script texts: parse A, parse B, parse A', expected=ns * ns),
         Family('stateless_expression', fam_state, [('expression', r) for r in split(list(range(ne)), 8)],
-               f'every ordered pair (A, B) of {ne} valid and invalid expression texts: parse A, parse B, parse A', expected=ne * ne),
+               f'every ordered pair (A, B) of {ne} valid, invalid and near-duplicate expression texts: parse A, parse B, parse A', expected=ne * ne),
         Family('gap_subsets', fam_gapsets, split(glines, 32),
-               f'{len(glines)} corpus code lines with 1..{MAX_GAPS} gaps: every subset of the gaps broken at once',
-               expected=sum(2 ** g for _, _, g in glines)),
+               f'{len(glines)} corpus code lines with 1..{MAX_GAPS} gaps: every subset of the gaps broken at once x (5 break styles, or the styles in rotation)',
+               expected=sum(2 ** g for _, _, g in glines) * GAP_MODES),
         Family('chunkings', fam_chunkings, split(small, 24),
                f'{len(small)} corpus programs of 2..8 lines: every assignment of (no cut | cut keeping the line end | cut dropping the line end) to every line boundary',
                expected=sum(3 ** (L.physical_lines(corpus[i][1]) - 1) for i in small)),
